@@ -2,6 +2,7 @@ package main
 
 import (
 	"fmt"
+	"strconv"
 	"strings"
 
 	"github.com/alttpo/snes/asm"
@@ -20,10 +21,19 @@ var notStraight = map[string]bool{
 	"BRA_imm8": true, "BRA": true, "JMP_abs": true, "JMP_abs_imm16_w": true, "JMP_indirect": true, "PLP": true, "MVN": true,
 }
 
+// A program is a list of calls:
+//
+//	I  an instruction method (by reflection)
+//	L  Label(name)
+//	J  a conditional branch to a label (defined earlier or later) that is provably NOT taken at run time: the flag the branch
+//	   tests is set the other way by the call(s) emitted right before it (args[0] = style of that setter, args[1] = width bits
+//	   merged into a REP/SEP setter); setter and branch are one unit so that shrinking cannot turn it into a taken branch
+//	R  REP given as raw bytes (EmitBytes C2 mm) followed by AssumeREP(mm): the assembler is told about a width change that
+//	P  SEP likewise (E2 mm, AssumeSEP(mm))                                  it did not emit itself
 type acProg struct {
 	initFlags uint8 // assumed widths at the start (bits $20 / $10)
 	calls     []asmOp
-	assume    []int // index into calls before which AssumeREP(-)/AssumeSEP(+) ... encoded in asmOp kind 'R'/'P'
+	assume    []int // unused (kept for positional literals)
 	split     int   // > 0: the calls from this index on go into a Clone of the emitter, which is appended back at the end
 }
 
@@ -37,8 +47,110 @@ func (p acProg) String() string {
 
 const acBank = 0xC0
 
+// notTaken: for each conditional branch with a label operand, the processor flag it tests and the value under which it falls
+// through (WDC: BCC branches on C=0, BCS on C=1, BNE on Z=0, BEQ on Z=1, BPL on N=0, BMI on N=1)
+var notTaken = map[string]struct {
+	bit byte // P bit of the tested flag
+	set bool // the branch falls through when the flag is set
+}{
+	"BCC": {0x01, true}, "BCS": {0x01, false}, "BNE": {0x02, true}, "BEQ": {0x02, false}, "BPL": {0x80, true}, "BMI": {0x80, false},
+}
+
+// widthDependent: the WDC immediates whose operand size follows M (accumulator group) or X (index group); from the method name
+func widthDependent(name string) (dep bool, wide bool, index bool) {
+	k := strings.Index(name, "_imm")
+	if k < 0 {
+		return
+	}
+	switch name[:k] {
+	case "ADC", "AND", "BIT", "CMP", "EOR", "LDA", "ORA", "SBC":
+	case "CPX", "CPY", "LDX", "LDY":
+		index = true
+	default:
+		return
+	}
+	switch name[k:] {
+	case "_imm8_b":
+		return true, false, index
+	case "_imm16_w", "_imm16_lh":
+		return true, true, index
+	}
+	return
+}
+
+func findMethod(ms []asmMethod, n string) *asmMethod {
+	for i := range ms {
+		if ms[i].name == n {
+			return &ms[i]
+		}
+	}
+	return nil
+}
+
+// acCall: one emitter call; the J / R / P units expand into several
+type acCall struct {
+	kind  byte // 'I' method, 'L' label, 'B' raw bytes, 'r' AssumeREP, 's' AssumeSEP
+	m     *asmMethod
+	args  []uint32
+	label string
+	data  []byte
+	mask  uint8
+}
+
+func expandOp(o asmOp, ms []asmMethod) []acCall {
+	switch o.kind {
+	case 'I':
+		return []acCall{{kind: 'I', m: o.m, args: o.args, label: o.label}}
+	case 'L':
+		return []acCall{{kind: 'L', label: o.label}}
+	case 'R':
+		return []acCall{{kind: 'B', data: []byte{0xC2, byte(o.addr)}}, {kind: 'r', mask: byte(o.addr)}}
+	case 'P':
+		return []acCall{{kind: 'B', data: []byte{0xE2, byte(o.addr)}}, {kind: 's', mask: byte(o.addr)}}
+	case 'J':
+		nt, ok := notTaken[o.m.name]
+		if !ok {
+			return nil
+		}
+		var cs []acCall
+		style, extra := o.args[0], o.args[1]&0x30
+		switch {
+		case style == 0:
+			// REP / SEP with the tested flag's bit (and possibly width bits) in the mask
+			nm := "REP"
+			if nt.set {
+				nm = "SEP"
+			}
+			cs = append(cs, acCall{kind: 'I', m: findMethod(ms, nm), args: []uint32{uint32(nt.bit) | extra}})
+		case nt.bit == 0x01 && !nt.set:
+			cs = append(cs, acCall{kind: 'I', m: findMethod(ms, "CLC")})
+		case nt.bit == 0x01:
+			// CMP #0 always sets the carry; both operand sizes are offered, the width guard lets exactly one through
+			cs = append(cs, acCall{kind: 'I', m: findMethod(ms, "CMP_imm8_b"), args: []uint32{0}}, acCall{kind: 'I', m: findMethod(ms, "CMP_imm16_w"), args: []uint32{0}})
+		default:
+			// a load immediate sets N and Z from its operand; both operand sizes are offered
+			reg := []string{"LDA", "LDX", "LDY"}[style%3]
+			v8, v16 := uint32(1), uint32(1) // Z=0, N=0
+			if nt.bit == 0x02 && nt.set {
+				v8, v16 = 0, 0 // Z=1
+			}
+			if nt.bit == 0x80 && nt.set {
+				v8, v16 = 0x80, 0x8000 // N=1
+			}
+			cs = append(cs, acCall{kind: 'I', m: findMethod(ms, reg+"_imm8_b"), args: []uint32{v8}}, acCall{kind: 'I', m: findMethod(ms, reg+"_imm16_w"), args: []uint32{v16}})
+		}
+		for _, c := range cs {
+			if c.m == nil {
+				return nil
+			}
+		}
+		return append(cs, acCall{kind: 'I', m: o.m, label: o.label})
+	}
+	return nil
+}
+
 // runProg assembles with the real Emitter and single-steps both real CPUs; returns a complaint or "".
-func runProg(p acProg, rep *report.Report) (complaint string, steps int) {
+func runProg(p acProg, ms []asmMethod, rep *report.Report) (complaint string, steps int) {
 	e := asm.NewEmitter(make([]byte, 4096), false)
 	base := uint32(acBank)<<16 | 0x8000
 	e.SetBase(base)
@@ -46,18 +158,47 @@ func runProg(p acProg, rep *report.Report) (complaint string, steps int) {
 	e.AssumeREP(asm.Flags(^p.initFlags & 0x30))
 	var starts []uint32
 	root := e
+	labelled := false
 	for i, o := range p.calls {
 		if p.split > 0 && i == p.split {
 			e = root.Clone(make([]byte, 4096)) // the program is continued in a clone (C16) and appended back below
 		}
-		pc := e.PC()
-		switch o.kind {
-		case 'I':
-			if callMethod(e, *o.m, o.args, o.label) {
-				rep.Count("asm-cpu: call refused by width guard")
-				continue // refused by a width guard: nothing emitted
+		for _, c := range expandOp(o, ms) {
+			pc := e.PC()
+			switch c.kind {
+			case 'I':
+				m16, x16 := e.IsM16bit(), e.IsX16bit()
+				refused := callMethod(e, *c.m, c.args, c.label)
+				if dep, wide, index := widthDependent(c.m.name); dep {
+					tracked := m16
+					if index {
+						tracked = x16
+					}
+					if refused != (wide != tracked) {
+						return fmt.Sprintf("%s (operand of %d bits) was %s while the assembler tracks m16=%v x16=%v",
+							c.m.name, map[bool]int{false: 8, true: 16}[wide], map[bool]string{false: "accepted", true: "refused"}[refused], m16, x16), steps
+					}
+				}
+				if refused {
+					rep.Count("asm-cpu: call refused by width guard")
+					continue // refused by a width guard: nothing emitted
+				}
+				starts = append(starts, pc)
+			case 'L':
+				if safe(func() { e.Label(c.label) }) {
+					return "", steps // a duplicate label: not a program (C06's business)
+				}
+				labelled = true
+			case 'B':
+				if safe(func() { e.EmitBytes(c.data) }) {
+					return "", steps
+				}
+				starts = append(starts, pc)
+			case 'r':
+				e.AssumeREP(asm.Flags(c.mask))
+			case 's':
+				e.AssumeSEP(asm.Flags(c.mask))
 			}
-			starts = append(starts, pc)
 		}
 	}
 	if e != root {
@@ -65,6 +206,15 @@ func runProg(p acProg, rep *report.Report) (complaint string, steps int) {
 		e = root
 	}
 	end := e.PC()
+	// label references are patched before the program runs; a program whose references cannot be resolved is not a program
+	var ferr error
+	if safe(func() { ferr = e.Finalize() }) || ferr != nil {
+		rep.Count("asm-cpu: program dropped (Finalize failed)")
+		return "", steps
+	}
+	if labelled {
+		rep.Count("asm-cpu: programs with labels run")
+	}
 	code := e.Bytes()
 	for _, variant := range []string{"primary", "alt"} {
 		mem := cpuh.NewMem(uint64(p.initFlags) + 99)
@@ -114,23 +264,24 @@ func genProg(r *prng.R, ms []asmMethod) acProg {
 			pool = append(pool, i)
 		}
 	}
-	var repI, sepI int
+	repI, sepI := findMethod(ms, "REP"), findMethod(ms, "SEP")
+	var branches []*asmMethod
 	for i := range ms {
-		if ms[i].name == "REP" {
-			repI = i
-		}
-		if ms[i].name == "SEP" {
-			sepI = i
+		if _, ok := notTaken[ms[i].name]; ok && len(ms[i].widths) == 1 && ms[i].widths[0] == 0 {
+			branches = append(branches, &ms[i])
 		}
 	}
-	for i := 0; i < n; i++ {
-		if r.Chance(18) {
-			k := []int{repI, sepI}[r.N(2)]
-			mask := []uint32{0x10, 0x20, 0x30, 0x00, 0x31, 0xFF & uint32(r.U8())}[r.N(6)]
-			// keep D clear and avoid touching I needlessly: decimal mode is irrelevant to lengths but harmless
-			p.calls = append(p.calls, asmOp{kind: 'I', m: &ms[k], args: []uint32{mask}})
-			continue
-		}
+	// labels: 0 = untouched, 1 = referenced but not defined yet, 2 = defined
+	nLab := 0
+	if r.Chance(55) && len(branches) > 0 {
+		nLab = 1 + r.N(3)
+	}
+	state := make([]int, nLab)
+	lname := func(j int) string { return "l" + strconv.Itoa(j) }
+	widthMask := func() uint32 {
+		return []uint32{0x10, 0x20, 0x30, 0x00, 0x31, 0xFF & uint32(r.U8())}[r.N(6)]
+	}
+	straight := func() asmOp {
 		m := &ms[pool[r.N(len(pool))]]
 		args := make([]uint32, len(m.widths))
 		for j, w := range m.widths {
@@ -140,12 +291,93 @@ func genProg(r *prng.R, ms []asmMethod) acProg {
 				args[j] = (args[j] & 0xFFFF) | 0x7E0000
 			}
 		}
-		p.calls = append(p.calls, asmOp{kind: 'I', m: m, args: args})
+		return asmOp{kind: 'I', m: m, args: args}
+	}
+	for i := 0; i < n; i++ {
+		if nLab > 0 && r.Chance(24) {
+			j := r.N(nLab)
+			if state[j] == 2 || r.Chance(60) {
+				// a reference: forward while the label is not defined yet, backward afterwards; never taken at run time
+				b := branches[r.N(len(branches))]
+				p.calls = append(p.calls, asmOp{kind: 'J', m: b, label: lname(j), args: []uint32{uint32(r.N(4)), []uint32{0, 0, 0x10, 0x20, 0x30}[r.N(5)]}})
+				if state[j] == 0 {
+					state[j] = 1
+				}
+			} else {
+				p.calls = append(p.calls, asmOp{kind: 'L', label: lname(j)})
+				state[j] = 2
+			}
+			continue
+		}
+		if r.Chance(18) {
+			k := []*asmMethod{repI, sepI}[r.N(2)]
+			// keep D clear and avoid touching I needlessly: decimal mode is irrelevant to lengths but harmless
+			p.calls = append(p.calls, asmOp{kind: 'I', m: k, args: []uint32{widthMask()}})
+			continue
+		}
+		if r.Chance(5) {
+			// the width change is made by bytes the assembler did not interpret; it is told through AssumeREP / AssumeSEP
+			p.calls = append(p.calls, asmOp{kind: []byte{'R', 'P'}[r.N(2)], addr: []uint32{0x10, 0x20, 0x30, 0x00}[r.N(4)]})
+			continue
+		}
+		p.calls = append(p.calls, straight())
+	}
+	// every label referenced so far is defined before the end, with some code behind it
+	for j := range state {
+		if state[j] == 1 {
+			p.calls = append(p.calls, asmOp{kind: 'L', label: lname(j)})
+			for k := r.N(4); k > 0; k-- {
+				p.calls = append(p.calls, straight())
+			}
+		}
 	}
 	if r.Chance(25) && len(p.calls) > 1 {
 		p.split = 1 + r.N(len(p.calls)-1)
 	}
 	return p
+}
+
+// directedBranchProgs: every label branch, falling through, with a width change between the branch and its label (forward) or
+// between the label and the branch (backward), followed by immediates of both sizes for both register groups
+func directedBranchProgs(ms []asmMethod) []acProg {
+	var ps []acProg
+	imm := func(names ...string) []asmOp {
+		var os []asmOp
+		for _, n := range names {
+			if m := findMethod(ms, n); m != nil {
+				os = append(os, asmOp{kind: 'I', m: m, args: make([]uint32, len(m.widths))})
+			}
+		}
+		return os
+	}
+	tail := append(imm("LDA_imm8_b", "LDA_imm16_w", "LDX_imm8_b", "LDX_imm16_w"), imm("NOP", "NOP", "NOP")...)
+	for i := range ms {
+		b := &ms[i]
+		if _, ok := notTaken[b.name]; !ok || len(b.widths) != 1 || b.widths[0] != 0 {
+			continue
+		}
+		for _, init := range []uint8{0x00, 0x30} {
+			for ci, chg := range []asmOp{
+				{kind: 'I', m: findMethod(ms, "REP"), args: []uint32{0x20}}, {kind: 'I', m: findMethod(ms, "REP"), args: []uint32{0x10}},
+				{kind: 'I', m: findMethod(ms, "SEP"), args: []uint32{0x20}}, {kind: 'I', m: findMethod(ms, "SEP"), args: []uint32{0x30}},
+				{kind: 'R', addr: 0x30}, {kind: 'P', addr: 0x10},
+			} {
+				if chg.kind == 'I' && chg.m == nil {
+					continue
+				}
+				style := uint32(ci % 4)
+				fwd := []asmOp{{kind: 'J', m: b, label: "t", args: []uint32{style, 0}}, chg}
+				fwd = append(fwd, imm("LDA_imm8_b", "LDA_imm16_w")...)
+				fwd = append(fwd, asmOp{kind: 'L', label: "t"})
+				fwd = append(fwd, tail...)
+				ps = append(ps, acProg{initFlags: init, calls: fwd})
+				back := []asmOp{{kind: 'L', label: "t"}, chg, {kind: 'J', m: b, label: "t", args: []uint32{style, 0}}}
+				back = append(back, tail...)
+				ps = append(ps, acProg{initFlags: init, calls: back, split: ci % 3})
+			}
+		}
+	}
+	return ps
 }
 
 func runAsmCPU() {
@@ -158,19 +390,37 @@ func runAsmCPU() {
 	r := prng.New(seed)
 	distinct := map[string]bool{}
 	var total int64
+	nFound := 0 // at most 20 (shrunk) failing programs are reported
+	progs := directedBranchProgs(ms)
+	rep.CountN("directed programs (fall-through branch, width change, label)", int64(len(progs)))
 	for i := 0; i < n; i++ {
-		p := genProg(r.Fork(), ms)
-		msg, steps := runProg(p, rep)
+		progs = append(progs, genProg(r.Fork(), ms))
+	}
+	for i, p := range progs {
+		msg, steps := runProg(p, ms, rep)
 		total += int64(steps)
 		sh := fmt.Sprintf("%02x", p.initFlags)
 		for _, o := range p.calls {
-			sh += o.m.name[:3]
+			if o.m != nil {
+				sh += o.m.name[:3]
+			} else {
+				sh += string(o.kind)
+			}
+			switch o.kind {
+			case 'J':
+				rep.Count("op: fall-through branch to a label")
+			case 'L':
+				rep.Count("op: label")
+			case 'R', 'P':
+				rep.Count("op: raw REP/SEP bytes + AssumeREP/AssumeSEP")
+			}
 		}
 		distinct[sh] = true
 		if i%800 == 0 {
 			rep.Sample(p.String())
 		}
-		if msg != "" {
+		if msg != "" && nFound < 20 {
+			nFound++
 			// shrink: drop calls while the complaint persists
 			for changed := true; changed; {
 				changed = false
@@ -182,20 +432,23 @@ func runAsmCPU() {
 					if q.split >= len(q.calls) {
 						q.split = 0
 					}
-					if m2, _ := runProg(q, rep); m2 != "" {
+					if m2, _ := runProg(q, ms, rep); m2 != "" {
 						p, msg, changed = q, m2, true
 						k--
 					}
 				}
 			}
-			rep.Add(report.Finding{Property: "C07", Kind: "violation", Clause: "CPU fetches opcodes exactly at the assembler's instruction starts and ends with the tracked widths: " + msg, Input: p.String()})
+			rep.Add(report.Finding{Property: "C07", Kind: "violation", Clause: "CPU fetches opcodes exactly at the assembler's instruction starts and ends with the tracked widths; an immediate is refused exactly when its size disagrees with the tracked width: " + msg, Input: p.String()})
 		}
 	}
 	rep.Evaluations = total
 	rep.Distinct = int64(len(distinct))
-	rep.CountN("programs", int64(n))
-	rep.Rule = "random straight-line programs of 1..24 calls (a quarter of them continued in a Clone and appended back) over every non-transferring instruction method (by reflection) with REP/SEP interleavings and all four initial width assumptions, " +
-		"assembled by the real Emitter at $C0:8000 and single-stepped on both real CPUs (whole bus mapped); compared: PC before every Step with the recorded PC(), final M/X with IsM16bit/IsX16bit. " +
+	rep.CountN("programs", int64(len(progs)))
+	rep.Rule = "directed: every conditional label branch falling through, forward and backward, with a REP/SEP/AssumeREP/AssumeSEP width change between branch and label, immediates of both sizes behind it; " +
+		"random programs of 1..24 calls (a quarter of them continued in a Clone and appended back) over every non-transferring instruction method (by reflection) with REP/SEP interleavings, raw REP/SEP bytes announced by AssumeREP/AssumeSEP, " +
+		"up to 3 labels referenced forward / backward / several times by conditional branches that are not taken at run time (the tested flag is set the other way by the unit's own REP/SEP/CLC/CMP/load immediate), all four initial width assumptions, " +
+		"assembled by the real Emitter at $C0:8000, finalized, and single-stepped on both real CPUs (whole bus mapped); compared: PC before every Step with the recorded PC(), final M/X with IsM16bit/IsX16bit, " +
+		"every width-dependent immediate refused exactly when its size disagrees with IsM16bit/IsX16bit. " +
 		"evaluations = CPU steps; distinct_nontrivial = distinct (initial widths, mnemonic sequence)"
 	rep.Emit()
 }
